@@ -391,6 +391,15 @@ class FatPath:
             if target.exists():
                 target._must_not_be_dir()
                 target._refresh()
+                self._refresh()
+                if (
+                    target._index.cluster == self._index.cluster and
+                    target._entry.filename == self._entry.filename and
+                    target._entry.ext == self._entry.ext
+                ):
+                    # The target is this very entry (same name, possibly in a
+                    # different case): nothing to do
+                    return target
                 target_cluster = get_cluster(target._entry, fs.fat_type)
             else:
                 target.touch()
